@@ -168,3 +168,77 @@ env_proof! {
         core::mem::forget(rl);
     }
 }
+
+// chunk splitting is invisible: the append that fills the chunk (rotation
+// forced right after it) leaves state, index and reads as in the reference log
+// @harness name=c01_append_rotating prop=C01 tier=quick timeout=2400
+env_proof! {
+    unwind = 6, rot = ghost, crc = off,
+    fn c01_append_rotating() {
+        let (mut rl, mut m) = mk();
+        let id: Id = kani::any();
+        let p: P = kani::any();
+        kani::assume(id.1 < 250);
+        kani::assume(m.append_ok(id));
+        unsafe { crate::raft_log::wal::kani_h_a_wal::ROTATE_NOW = true; }
+        let ok = is_ok(rl.append([(id, p)]));
+        unsafe { crate::raft_log::wal::kani_h_a_wal::ROTATE_NOW = false; }
+        assert!(ok, "accepted append fails when it fills the chunk");
+        m.do_append(id, p);
+        assert_matches(&rl, &m);
+        let (from, to) = any_range();
+        assert_read(&rl, &m, from, to);
+        assert!(rl.wal.closed.len() == 1, "chunk was not rotated");
+        kani::cover!(true, "append with rotation");
+        core::mem::forget(rl);
+    }
+}
+
+fn mk3() -> (RaftLog<KTypes>, Model) {
+    let cfg = mk_config(None, None, None, None);
+    let mut rl: RaftLog<KTypes> = open_empty(cfg);
+    let m = Model::any_reachable_n(3);
+    inject(&mut rl, &m);
+    (rl, m)
+}
+
+// three live entries (slot capacity 4): truncate and purge
+// @harness name=c01_truncate_n3 prop=C01 tier=thorough timeout=3000
+env_proof! {
+    unwind = 6, rot = ghost, crc = off,
+    fn c01_truncate_n3() {
+        let (mut rl, mut m) = mk3();
+        let idx: u8 = kani::any();
+        let ok = is_ok(rl.truncate(idx as u64));
+        let tgt = m.truncate_target(idx as u64);
+        assert!(ok == tgt.is_some(), "truncate accepted/rejected differently from the reference log");
+        if let Some(after) = tgt {
+            m.do_truncate(after);
+            assert_matches(&rl, &m);
+            let (from, to) = any_range();
+            assert_read(&rl, &m, from, to);
+            kani::cover!(m.n == 2, "truncate keeps two of three entries");
+        }
+        core::mem::forget(rl);
+    }
+}
+
+// @harness name=c01_purge_n3 prop=C01 tier=thorough timeout=3000
+env_proof! {
+    unwind = 6, rot = ghost, crc = off,
+    fn c01_purge_n3() {
+        let (mut rl, mut m) = mk3();
+        let upto: Id = kani::any();
+        kani::assume(upto.1 < 250);
+        kani::assume(m.purge_legal(upto));
+        let ok = is_ok(rl.purge(upto));
+        assert!(ok, "a legal purge is accepted");
+        let before = m.n;
+        m.do_purge(upto);
+        assert_matches(&rl, &m);
+        let (from, to) = any_range();
+        assert_read(&rl, &m, from, to);
+        kani::cover!(before == 3 && m.n == 1, "purge removes two of three entries");
+        core::mem::forget(rl);
+    }
+}
